@@ -33,11 +33,14 @@ def run(ck):
     ck.rule("C13.R2", "buffer is cleared before formatting starts", floor=1)
     ck.rule("C13.R3", "single-line formatters end each Ok path with exactly one newline write", floor=3)
     ck.rule("C13.R4", "writer combinators route as their definition denotes", floor=9)
+    ck.rule("C13.R6", "formatter/builder conversions keep every option: a rebuilt field comes from the same-named field", floor=60)
     ck.rule("C13.R5", "span lifecycle events: one on_event under the matching FmtSpan flag", floor=4)
     r1_r2(ck, F)
     r3(ck, F)
     r4(ck, F)
     r5(ck, F)
+    from rulekit.query import builder_carry_over
+    builder_carry_over(ck, F, "C13.R6", ("tracing_subscriber::fmt::",))
 
 
 def r1_r2(ck, F):
